@@ -51,6 +51,11 @@ def run(ctx):
     ctx.rule("R9", "local-frame two-centre integrals equal the Dewar-Thiel point-charge multipole model (first-principles oracle, all 22 + 4 + 1 elements); core-electron elements select the right integrals")
     ctx.rule("R10", "core-core repulsion has the published functional form for MNDO / AM1 / PM3 (X-H exception for N-H and O-H, Gaussian corrections divided by R)")
     ctx.rule("R11", "molecular-frame two-electron integrals are the tensor transform of the local-frame ones (shared with C02-R6)")
+    ctx.rule("R12", "Fock builders (RHF and UHF, sp and spd basis) equal the NDDO Fock operator on a padded symbolic batch (abstract interpretation of the source, sa/npsym.py)")
+    ctx.rule("R13", "core Hamiltonian assembly: U on the diagonal, partners' core-electron attraction on diagonal blocks, 1/2 (beta_A + beta_B) S on pair blocks")
+    from ..assembly import check_fock_assembly, check_hcore_assembly
+    check_fock_assembly(ctx, "R12")
+    check_hcore_assembly(ctx, "R13")
     from .c02 import check_integral_rotation
     check_integral_rotation(ctx, "R11")
     check_local_frame_integrals(ctx, "R9")
